@@ -107,6 +107,11 @@ class Impl:
         gg = self._g(g, via_fn)
         return gg.inputs if kind == "KIn" else gg.outputs
 
+    @staticmethod
+    def _it(xs: list, extra: dict):
+        """the argument as the caller may legitimately pass it: a list, or (extra['gen']) a one-shot generator"""
+        return (x for x in xs) if extra.get("gen") else xs
+
     def execute(self, op: list) -> str:
         """Run one op; returns 'ok' or the exception name (common.exn_name)."""
         try:
@@ -155,6 +160,7 @@ class Impl:
             attrs = []
             if extra.get("sub") is not None:
                 attrs.append(ir.AttrGraph("body", G[extra["sub"]]))
+            inputs, attrs = self._it(inputs, extra), self._it(attrs, extra)
             gobj = None if g is None else self._g(g, extra.get("via_fn", False))
             node = ir.Node("", "Op", inputs, attrs, graph=gobj, name=nm, **kw)
             self._reg("n", node)
@@ -167,7 +173,7 @@ class Impl:
             _, g, gi, go, ginit, ns, extra = op
             assert g == len(G)
             try:
-                gr = ir.Graph([V[x] for x in gi], [V[x] for x in go], nodes=[N[x] for x in ns],
+                gr = ir.Graph([V[x] for x in gi], [V[x] for x in go], nodes=self._it([N[x] for x in ns], extra),
                               initializers=[V[x] for x in ginit])
             except Exception:
                 # the half-built graph stays reachable through value.graph / node.graph
@@ -185,18 +191,18 @@ class Impl:
             self._g(g, extra.get("via_fn")).append(N[n])
         elif k == "GExtend":
             _, g, ns, extra = op
-            self._g(g, extra.get("via_fn")).extend([N[x] for x in ns])
+            self._g(g, extra.get("via_fn")).extend(self._it([N[x] for x in ns], extra))
         elif k in ("GInsertAfter", "GInsertBefore"):
             _, g, ref, ns, extra = op
             gg = self._g(g, extra.get("via_fn"))
-            arg = N[ns[0]] if (len(ns) == 1 and extra.get("single")) else [N[x] for x in ns]
+            arg = N[ns[0]] if (len(ns) == 1 and extra.get("single")) else self._it([N[x] for x in ns], extra)
             (gg.insert_after if k == "GInsertAfter" else gg.insert_before)(N[ref], arg)
         elif k in ("NAppend", "NPrepend"):
             _, n, ns = op
             (N[n].append if k == "NAppend" else N[n].prepend)([N[x] for x in ns])
         elif k == "GRemove":
             _, g, ns, safe, extra = op
-            arg = N[ns[0]] if (len(ns) == 1 and extra.get("single")) else [N[x] for x in ns]
+            arg = N[ns[0]] if (len(ns) == 1 and extra.get("single")) else self._it([N[x] for x in ns], extra)
             self._g(g, extra.get("via_fn")).remove(arg, safe=safe)
         elif k == "GSort":
             # op = ["GSort", g, outcome]; the outcome (None = cycle found, else [[gid, [node ids in the new order]], ...]
@@ -232,7 +238,7 @@ class Impl:
             self._io(kind, g, extra.get("via_fn")).append(V[v])
         elif k == "IOExtend":
             _, kind, g, vs, extra = op
-            self._io(kind, g, extra.get("via_fn")).extend([V[x] for x in vs])
+            self._io(kind, g, extra.get("via_fn")).extend(self._it([V[x] for x in vs], extra))
         elif k == "IOInsert":
             _, kind, g, i, v = op
             self._io(kind, g).insert(i, V[v])
@@ -725,7 +731,10 @@ class Gen:
         return [i for i in range(len(self.im.vals)) if i not in ok]
 
     def _extra(self, g):
-        return {"via_fn": True} if (g in self.im.funcs and self.rng.random() < 0.5) else {}
+        e = {"via_fn": True} if (g in self.im.funcs and self.rng.random() < 0.5) else {}
+        if self.rng.random() < 0.35:
+            e["gen"] = True            # pass the iterable argument as a one-shot generator
+        return e
 
     def next_op(self) -> list:
         rng = self.rng
@@ -782,7 +791,18 @@ class Gen:
                 if badn:
                     ns = list(ns)
                     ns.insert(rng.randrange(len(ns) + 1), rng.choice(badn))
-        return ["GraphNew", g, gi, go, ginit, ns, {"function": rng.random() < 0.4}]
+        if rng.random() < 0.25:
+            # two initializers with the same name: the constructor keeps the LAST one (dict comprehension)
+            same = [v for v in self._vals(lambda v: bool(v.name)) if v not in ginit]
+            pick = None
+            for v in same:
+                twins = [w for w in same if w != v and im.vals[w].name == im.vals[v].name]
+                if twins:
+                    pick = (v, rng.choice(twins))
+                    break
+            if pick:
+                ginit = list(ginit) + list(pick if rng.random() < 0.5 else pick[::-1])
+        return ["GraphNew", g, gi, go, ginit, ns, {"function": rng.random() < 0.4, "gen": rng.random() < 0.35}]
 
     def _try_op(self):  # noqa: C901, PLR0911, PLR0912, PLR0915
         rng = self.rng
@@ -812,7 +832,7 @@ class Gen:
             if xs and rng.random() < 0.2:
                 xs.append(next(x for x in xs))          # same value twice
             g = self._pick(graphs) if rng.random() < 0.5 else None
-            extra = {}
+            extra = {"gen": True} if rng.random() < 0.35 else {}
             if g is not None:
                 extra.update(self._extra(g))
             subs = [x for x in graphs if x not in self.sub_used and x != g and (g is None or g not in self._reach(x))]
@@ -1796,7 +1816,18 @@ def gen_multi_rau(rng) -> list[list]:
                                ([outs[0]], [ok, spare[0], spare[1]]), (outs, ok), ([x, outs[0]], [ok])])
         b.ops.append(["X_ConvReplaceAllUses", vs, reps, rng.random() < 0.7])
         return b.ops
-    reps = [ok, foreign] if r < 0.8 else [ok, b.value(None)]
+    if r < 0.6:
+        # position 0: a real replacement of a value that has consumers and is no graph output; position k > 0: a graph
+        # OUTPUT mapped to ITSELF with replace_graph_outputs=False (Value.replace_all_uses_with rejects it)
+        extra = [b.value(None) for _ in range(2)]
+        mid = [(extra[0], extra[1])] if rng.random() < 0.5 else []
+        pairs = [(x, ok)] + mid + [(rng.choice(outs), None)]
+        pairs = [(v, (v if rep is None else rep)) for v, rep in pairs]
+        if rng.random() < 0.3:
+            pairs.append((extra[1], extra[0]))
+        b.ops.append(["X_ConvReplaceAllUses", [p[0] for p in pairs], [p[1] for p in pairs], False])
+        return b.ops
+    reps = [ok, foreign] if r < 0.85 else [ok, b.value(None)]
     b.ops.append(["X_ConvReplaceAllUses", outs, reps, True])
     return b.ops
 
@@ -1825,7 +1856,7 @@ def gen_rejections(rng) -> list[list]:
     free = [b.node([o1])[0] for _ in range(3)]                   # graph-less, unnamed, outputs unnamed
     lone = b.node([])[0]
     shape = rng.choice(["insert-ref", "insert-ref", "insert-foreign", "extend-foreign", "io-extend", "io-insert", "io-setitem", "io-setslice", "io-returning", "io-returning",
-                        "rau", "rau", "rename", "rename", "init-set", "init-update", "init-update", "remove-safe", "resize-outputs"])
+                        "rau", "rau", "rename", "rename", "init-set", "init-update", "init-update", "remove-safe", "resize-outputs", "ctor-dup-init", "ctor-dup-init"])
     k = rng.randrange(1, 4)
     if shape == "insert-ref":
         op = [rng.choice(["GInsertBefore", "GInsertAfter"]), g0, rng.choice([m0, lone]), free[:k], {}]
@@ -1875,6 +1906,19 @@ def gen_rejections(rng) -> list[list]:
     elif shape == "init-set":
         v = rng.choice([o2, f, p0])
         op = rng.choice([["InitSetItem", g0, "u7", v], ["InitSetItem", g0, "u1", v], ["InitAdd", g0, v]])
+    elif shape == "ctor-dup-init":
+        # Graph(inputs, outputs, nodes, initializers=[..., ok, ..., bad]) with ok.name == bad.name: the dict built from the
+        # initializers keeps the LAST of a repeated name, so that is the one that must be validated
+        okv, twin_free = val("u6", True), val("u6")
+        nb, (bad_prod,) = b.node([a])                    # produced value ...
+        b.ops.append(["VSetName", bad_prod, "u6"])       # ... with the same name
+        foreign6 = val("u6")
+        b.ops.append(["IOAppend", "KOut", g1, foreign6, {}])       # owned by another graph, same name
+        bad = rng.choice([bad_prod, foreign6])
+        gi2, go2 = [val(None)], [val("u9")]
+        extra_ok = [val(f"u{30 + i}") for i in range(k - 1)]
+        order = rng.choice([[okv, bad], [okv] + extra_ok + [bad], [twin_free, okv, bad], extra_ok + [bad, okv]])   # last: accepted
+        op = ["GraphNew", b.ng, gi2, go2, order, [free[0]], {}]
     elif shape == "init-update":
         okv = [val(f"u{20 + i}", rng.random() < 0.5) for i in range(k)]
         kvs = [[f"u{20 + i}", v] for i, v in enumerate(okv)]
